@@ -124,10 +124,12 @@ def _same_object_history(ctx, pattern, text, other, rx_cache):
     from Bio.Seq import Seq
     from Bio.SeqRecord import SeqRecord
 
+    from moclo.record import CircularRecord
     rx = rx_cache[pattern]
     s = Seq(text)
     r = SeqRecord(Seq(text), "h")
-    for target in (s, r):
+    # (a CircularRecord is a circle whatever the flag says)
+    for target in (s, r, CircularRecord(Seq(text), "c")):
         for lin in (True, False, True, False):
             ctx.count("evaluations")
             ctx.count("same_object_history_searches")
